@@ -96,6 +96,9 @@ def _module(draw, ctx):
     n_def = draw(st.integers(1, 8))
     names = draw(st.lists(st.sampled_from(pool), min_size=n_in + 2 * n_def + 2, max_size=n_in + 2 * n_def + 2, unique=True))
     inputs = names[:n_in]
+    if draw(st.integers(0, 5)) == 0:
+        # an input may carry the name the fast parser would like to use for its constants
+        inputs[0] = draw(st.sampled_from(["tie0", "tie1"]))
     fresh = names[n_in:]
     avail = list(inputs)
     defined = []
@@ -212,17 +215,19 @@ def strategy(ctx):
 
 def _norm(c):
     """Graph with the shared constant nodes renamed to a common name."""
-    ren = {"tie0": "<const0>", "tie_0": "<const0>", "tie1": "<const1>", "tie_1": "<const1>"}
+    # netlists of the subset define no constant nodes of their own: every node of type 0 / 1 is
+    # the parser's shared constant, whatever name the parser chose for it
+    ren = {"0": "<const0>", "1": "<const1>"}
     g = c.graph
     nodes = {}
     for n in g.nodes:
         t = g.nodes[n].get("type")
-        nn = ren.get(n, n) if t in ("0", "1") else n
+        nn = ren[t] if t in ren else n
         nodes[nn] = (t, bool(g.nodes[n].get("output", False)))
     edges = set()
     for u, v in g.edges:
         tu = g.nodes[u].get("type")
-        edges.add((ren.get(u, u) if tu in ("0", "1") else u, v))
+        edges.add((ren[tu] if tu in ren else u, v))
     return nodes, edges
 
 
